@@ -470,3 +470,61 @@ Lemma front_end_unknown I MC m f2 f3 x1 x2 y1 y2 z1 z2 p :
   is_nested_method m = false -> is_mc_method m = false ->
   integrate_2d ROps I MC m f2 x1 x2 y1 y2 p = Exit /\ integrate_3d ROps I MC m f3 x1 x2 y1 y2 z1 z2 p = Exit.
 Proof. intros H1 H2. split; [exact (integrate_2d_unknown I MC m f2 x1 x2 y1 y2 p H1 H2) | exact (integrate_3d_unknown I MC m f3 x1 x2 y1 y2 z1 z2 p H1 H2)]. Qed.
+
+(** ** Call histories: the answer of a call does not depend on the calls the process made before it *)
+Section Histories.
+Variable I : backend -> (R -> res R) -> R -> R -> res R.
+Variable MC : method -> (list R -> R) -> list R -> Z -> res R.
+Local Notation RC := (run_call ROps I MC).
+Local Notation RS := (run_session ROps I MC).
+
+Definition survives (c : call (T := R)) : Prop := RC c <> Exit.
+
+Lemma run_session_history (h : list call) : forall c t, List.Forall survives h ->
+  nth (List.length h) (RS (h ++ c :: t)%list) Exit = RC c.
+Proof.
+  induction h as [|c0 h IH]; intros c t Hh.
+  - cbn. destruct (RC c) eqn:E; reflexivity.
+  - inversion Hh as [|? ? H0 Hr]; subst. cbn [app List.length run_session].
+    unfold survives in H0. destruct (RC c0) eqn:E; try congruence; cbn [nth]; apply IH; assumption.
+Qed.
+
+(** every call of a history that does not terminate the process is answered *)
+Lemma run_session_length (cs : list call) : List.Forall survives cs -> List.length (RS cs) = List.length cs.
+Proof.
+  induction 1 as [|c cs H0 _ IH]; [reflexivity|]. cbn [run_session]. unfold survives in H0.
+  destruct (RC c) eqn:E; try congruence; cbn [List.length]; now rewrite IH.
+Qed.
+
+(** after any history, a one-dimensional call whose selected back end is exact returns the integral *)
+Lemma history_named_exact (h t : list call) m p g a b : List.Forall survives h ->
+  is_nested_method m = true ->
+  (forall g lo hi, lo < hi -> ex_RInt g lo hi -> selected I m p (okf g) lo hi = Ok (RInt g lo hi)) ->
+  ex_RInt g a b ->
+  nth (List.length h) (RS (h ++ Call_1d m p (okf g) a b :: t)%list) Exit = Ok (RInt g a b).
+Proof.
+  intros Hh Hm Hex Hg. rewrite run_session_history by assumption. cbn [run_call].
+  exact (named_exact I m p Hm Hex g a b Hg).
+Qed.
+End Histories.
+
+Example example_history :
+  nth 2 (run_session ROps I_ideal (fun _ _ _ _ => Exit)
+           [Call_1d M_Trapezoidal 3%Z (okf (fun x => x)) 0 1;
+            Call_2d M_TanhSinh 0%Z (fun x y => x * y) 0 1 2 2;
+            Call_1d M_GaussKronrod 0%Z (okf (fun x => exp (- x))) 0 2;
+            Call_1d M_Unknown 0%Z (okf (fun x => x)) 0 1]) Exit
+  = Ok (RInt (fun x => exp (- x)) 0 2).
+Proof.
+  apply (history_named_exact I_ideal (fun _ _ _ _ => Exit)
+           [Call_1d M_Trapezoidal 3%Z (okf (fun x => x)) 0 1; Call_2d M_TanhSinh 0%Z (fun x y => x * y) 0 1 2 2]
+           [Call_1d M_Unknown 0%Z (okf (fun x => x)) 0 1] M_GaussKronrod 0%Z (fun x => exp (- x)) 0 2).
+  - repeat constructor; unfold survives; cbn [run_call].
+    + unfold integrate_named. cbn [is_nested_method negb]. destruct (neqb ROps 0 1); [discriminate|].
+      destruct (check_limits ROps 0 1) as [[? ?] ?]. unfold I_ideal. cbn. discriminate.
+    + unfold integrate_2d. cbn [is_nested_method]. unfold nest_2d, integrate_named. cbn [is_nested_method negb].
+      destruct (neqb ROps 0 1); [discriminate|]. destruct (check_limits ROps 0 1) as [[? ?] ?]. unfold I_ideal. cbn. discriminate.
+  - reflexivity.
+  - apply ideal_backend_exact; [reflexivity | discriminate | discriminate].
+  - apply (@ex_RInt_continuous R_CompleteNormedModule). intros z _. apply (@ex_derive_continuous R_AbsRing R_NormedModule). auto_derive; auto.
+Qed.
